@@ -3,6 +3,7 @@ package model
 import (
 	"fmt"
 	"math/rand"
+	"reflect"
 	"sort"
 	"strconv"
 	"strings"
@@ -715,7 +716,7 @@ func (n *Net) CompareTracker(st state.Tracker) string {
 			if got.Topic != v.Topic {
 				return fmt.Sprintf("channel %s topic %q, server's %q", x, got.Topic, v.Topic)
 			}
-			if got.Modes == nil || *got.Modes != v.Modes {
+			if got.Modes == nil || !reflect.DeepEqual(*got.Modes, v.Modes) {
 				return fmt.Sprintf("channel %s modes %+v, revealed by the server %+v", x, got.Modes, v.Modes)
 			}
 			if !v.ModesAsked {
@@ -764,7 +765,7 @@ func privMapDiff(got, want map[string]*state.ChanPrivs) string {
 		if !ok {
 			return fmt.Sprintf("%s missing", k)
 		}
-		if g == nil || *g != *w {
+		if g == nil || !reflect.DeepEqual(*g, *w) {
 			return fmt.Sprintf("%s has privileges %+v, revealed %+v", k, g, *w)
 		}
 	}
